@@ -19,8 +19,10 @@ type Recorder struct {
 	Toks   []string
 	FailAt int
 	N      int
-	// Refs records, per string/key event, whether it was delivered by reference
-	ByRef []bool
+	// strings delivered BY VALUE (OnString / OnKey) are retained as they were handed over and
+	// only formatted when the observation is printed: a producer that hands out a view of a
+	// buffer it later reuses (C15) then shows up as a changed event
+	held map[int]string
 }
 
 var ErrInjected = errors.New("injected failure")
@@ -41,7 +43,28 @@ func (r *Recorder) String() string {
 	if len(r.Toks) == 0 {
 		return "-"
 	}
-	return strings.Join(r.Toks, ",")
+	out := make([]string, len(r.Toks))
+	copy(out, r.Toks)
+	for i, s := range r.held {
+		if i < len(out) {
+			out[i] = out[i] + hx([]byte(s))
+		}
+	}
+	return strings.Join(out, ",")
+}
+
+// Reset forgets the recorded events (between documents).
+func (r *Recorder) Reset() {
+	r.Toks = r.Toks[:0]
+	r.held = nil
+}
+
+func (r *Recorder) hold(prefix string, s string) error {
+	if r.held == nil {
+		r.held = map[int]string{}
+	}
+	r.held[len(r.Toks)] = s
+	return r.add(prefix)
 }
 
 func hx(b []byte) string { return hex.EncodeToString(b) }
@@ -50,7 +73,7 @@ func (r *Recorder) OnObjectStart(l int, bt structform.BaseType) error {
 	return r.add(fmt.Sprintf("{%d:%d", l, int(bt)))
 }
 func (r *Recorder) OnObjectFinished() error { return r.add("}") }
-func (r *Recorder) OnKey(s string) error    { return r.add("K:" + hx([]byte(s))) }
+func (r *Recorder) OnKey(s string) error    { return r.hold("K:", s) }
 func (r *Recorder) OnArrayStart(l int, bt structform.BaseType) error {
 	return r.add(fmt.Sprintf("[%d:%d", l, int(bt)))
 }
@@ -62,7 +85,7 @@ func (r *Recorder) OnBool(b bool) error {
 	}
 	return r.add("F")
 }
-func (r *Recorder) OnString(s string) error { return r.add("S:" + hx([]byte(s))) }
+func (r *Recorder) OnString(s string) error { return r.hold("S:", s) }
 func (r *Recorder) OnInt8(i int8) error     { return r.add("i8:" + strconv.FormatInt(int64(i), 10)) }
 func (r *Recorder) OnInt16(i int16) error   { return r.add("i16:" + strconv.FormatInt(int64(i), 10)) }
 func (r *Recorder) OnInt32(i int32) error   { return r.add("i32:" + strconv.FormatInt(int64(i), 10)) }
